@@ -60,6 +60,12 @@ def gen_cases(rng, tier):
             if mode == "clone" and k > 0:
                 sp["constraints"] = copy.deepcopy(stages[0]["constraints"])
                 sp["objective"] = copy.deepcopy(stages[0]["objective"])
+                # a clone may receive its own parameter values after cloning
+                from .c09 import rand_value
+                for p_ in sp["params"]:
+                    if rng.random() < 0.6:
+                        p_["value"] = rand_value(rng, p_, sp["method"]["N"])
+                        p_["own_value"] = True
                 continue
             sp["constraints"] = [ocpgen.gen_constraint(rng, sp, 100 * (k + 1) + j, grids=["control", "integrator"],
                                                        allow_offsets=False) for j in range(rng.randint(1, 2))]
@@ -164,6 +170,9 @@ def run_case(case):
                 st = C.call("stage(template)", ocp.stage, tmpl, **kw)
                 b = build.Built(ocp, st, sp)
                 b.syms.update(tb.syms)
+                for p_ in sp["params"]:
+                    if p_.get("own_value"):
+                        C.call("set_value(clone)", st.set_value, b.syms[p_["name"]], build.param_value(p_))
                 builts.append(b)
         # couplings and parent objective
         for c in case["couplings"]:
